@@ -42,6 +42,9 @@ fn main() {
     let code = match id {
         "C01" => drive::<vcore::c01::C01>(&args),
         "C02" => drive::<vcore::c02::C02>(&args),
+        "C03" => drive::<vcore::c03::C03>(&args),
+        "C10" => drive::<vcore::c10::C10>(&args),
+        "C11" => drive::<vcore::c11::C11>(&args),
         "C15" => drive::<vcore::c15::C15>(&args),
         _ => {
             eprintln!("unknown property id {id}");
